@@ -58,6 +58,14 @@ RECURSIVE JoinDot(_)
 JoinDot(ss) == IF Len(ss) = 1 THEN ss[1] ELSE ss[1] \o <<46>> \o JoinDot(Tail(ss))
 Keys == {JoinDot(ss) : ss \in UNION {[1..k -> Segs] : k \in 1..PathLen}}
 
+(* keys with an EMPTY segment (a trailing, leading or doubled dot): the empty name is an ordinary *)
+(* member name that no document of the universe has, so such a key is missing - it is never      *)
+(* answered from the shorter path                                                               *)
+ShortKeys == {JoinDot(ss) : ss \in UNION {[1..k -> Segs] : k \in 1..2}}
+DotKeys == {k \o <<46>> : k \in ShortKeys} \cup {<<46>> \o k : k \in ShortKeys}
+           \cup {a \o <<46, 46>> \o b : a \in Segs, b \in Segs}
+EmptySegMissing == \A k \in DotKeys : CheckablePath(k) /\ IsNone(Find(Doc, k)) /\ IsNone(EngFind(Doc, k, {}))
+
 KnownDeviation(k) == "find_restarts_at_root" \in Dev
 WalkIsFind == \A k \in Keys : WellFormedPath(k) /\ (EngFind(Doc, k, Dev) = Find(Doc, k) \/ KnownDeviation(k))
 (* with the deviation switched off the walk IS the descent *)
@@ -65,5 +73,5 @@ IdealWalkIsFind == \A k \in Keys : EngFind(Doc, k, {}) = Find(Doc, k)
 
 Emit == pc = "done" =>
   PrintT("REPLAY " \o ToJson([topic |-> "C10", run |-> "find", form |-> "doc",
-                               doc |-> Doc, keys |-> SetSeq(Keys)]))
+                               doc |-> Doc, keys |-> SetSeq(Keys) \o SetSeq(DotKeys)]))
 =============================================================================
